@@ -19,7 +19,9 @@ RealGets == \A i \in 1..Len(Ev.gets) :
               \* euk[e] identifies the user key of entry e, tuk the target's: a filter never rejects a present key
               IF m # 0 /\ Ev.euk[m] = tuk THEN r = m ELSE (r = m \/ r = 0)
 RealScans == Ev.scan.n = Ev.n /\ Ev.scan.fwd_ok = 1 /\ Ev.scan.bwd_ok = 1 /\ Ev.scan.st = 0 /\ Ev.walk_bad = 0
-TableOk == WellFormed(Ev) /\ SeeksLandRight(Ev) /\ GetsFindPresent(Ev) /\ Flags /\ RealSeeks /\ RealGets /\ RealScans
+\* a reader configured with a different filter parameter still finds every present key (the table stores its own probe count)
+OtherReader == \A i \in 1..Len(Ev.gets2) : Ev.gets2[i][2] = ModelGet(Ev, Ev.gets2[i][1])
+TableOk == WellFormed(Ev) /\ SeeksLandRight(Ev) /\ GetsFindPresent(Ev) /\ Flags /\ RealSeeks /\ RealGets /\ RealScans /\ OtherReader
 Next == l <= Len(T) /\ Ev.e = "table" /\ (TableOk = TRUE) /\ l' = l + 1
 Spec == Init /\ [][Next]_l
 =============================================================================
